@@ -62,9 +62,11 @@ def _alpha(rng):
         return rng.choice([1e-12, -1e-12, 1e-6, -1e-6, 5e-324, -5e-324])
     if r < 0.70:
         return round(rng.uniform(-1, 1), 4)
-    if r < 0.94:
+    if r < 0.92:
         return round(rng.choice([-1, 1]) * rng.uniform(1.0, 8.0), 4)
-    return round(rng.choice([-1, 1]) * rng.uniform(8.0, 40.0), 3)   # far out on the extrapolation sides
+    if r < 0.97:
+        return round(rng.choice([-1, 1]) * rng.uniform(8.0, 40.0), 3)   # far out on the extrapolation sides
+    return round(rng.choice([-1, 1]) * rng.uniform(40.0, 300.0), 2)     # very far: still 'all alpha in R
 
 
 def _gen_hist(rng, code):
@@ -379,6 +381,21 @@ class World:
         # 3. fast = slow ------------------------------------------------------------
         try:
             slow = np.asarray(tl.tolist(pyhf.interpolators.get(code, do_tensorized_calc=False)(o["hist"], **o["kw"])(tl.astensor(al))), dtype=np.float64)
+        except OverflowError as e:
+            # the scalar implementation works in Python floats: where the formula itself leaves the double range it
+            # raises instead of returning inf.  Only there; anywhere else an OverflowError is a disagreement.
+            def overflows(s_, a_, h_, b_):
+                try:
+                    ref(float(hist[s_, h_, 0, b_]), float(hist[s_, h_, 1, b_]), float(hist[s_, h_, 2, b_]), float(a_))
+                    return False
+                except OverflowError:
+                    return True
+
+            if any(overflows(s_, a_, h_, b_) for s_ in range(hist.shape[0]) for a_ in al[s_] for h_ in range(hist.shape[1]) for b_ in range(hist.shape[3])):
+                ctx.probe("slow_overflow_beyond_double_range")
+            else:
+                ctx.fail("fast_slow", dict(sig0, cls="slow_raises"), f"slow code{code} raised OverflowError: {e}")
+            slow = None
         except Exception as e:
             ctx.fail("fast_slow", dict(sig0, cls="slow_raises"), f"slow code{code} raised {type(e).__name__}: {e}")
             slow = None
@@ -397,9 +414,18 @@ class World:
                 for h in range(nh):
                     for b in range(nb):
                         dn, nom, up = hist[s, h, 0, b], hist[s, h, 1, b], hist[s, h, 2, b]
-                        v, scale = ref(float(dn), float(nom), float(up), float(a))
                         g = got[s, h, a_i, b]
                         ctx.c.oracle_evals["formula_points"] += 1
+                        try:
+                            v, scale = ref(float(dn), float(nom), float(up), float(a))
+                        except OverflowError:
+                            # beyond the double range: the only correct answer is +inf (ratios are positive)
+                            ctx.probe("double_overflow_region")
+                            if not (np.isinf(g) and g > 0):
+                                ctx.fail("formula" if which == "fast" else "fast_slow", dict(sig0, cls=which + "_vs_formula", regime=self._regime(a)),
+                                         f"{which} code{code} at alpha={a!r} (down,nom,up)=({dn},{nom},{up}): got {g!r}, the formula overflows to +inf; backend={self.reg}")
+                                return
+                            continue
                         tol = 64 * eps * scale + (2e-38 if eps > 1e-10 else 1e-300)   # plus the smallest normal number: underflow
                         if eps > 1e-10 and abs(v) > 1e37:
                             # beyond the float32 range: overflow to inf (or a finite value within tolerance) is the only
